@@ -4852,7 +4852,8 @@ pub fn initialize(env: &mut Env) {
                         .ok_or(NErr::value_error("bad lazy pow".to_string()))?;
                     Ok(Obj::Seq(Seq::Stream(Rc::new(CartesianPower(
                         v,
-                        if empty {
+                        // the zeroth power has exactly one (empty) tuple even for an empty base
+                        if empty && u > 0 {
                             None
                         } else {
                             Some(Rc::new(vec![0; u]))
